@@ -500,6 +500,7 @@ func checkC18(p *core.Program, r *core.Report) {
 		"O18.4": "empty-subtree table written only during construction; built from Hash(t[i-1], t[i-1])",
 		"O18.5": "updates write only to freshly allocated nodes",
 		"O18.6": "level indices mutually consistent (bit depth-1, out[depth-1], table[depth], child depth-1, loops)",
+		"O18.7": "every 1 << (depth+c) in the tree package is computed in a type that holds 2^(32+c): no wrap at the top of the depth range 1..32",
 	} {
 		r.Rule(id, t)
 	}
@@ -614,6 +615,7 @@ func checkC18(p *core.Program, r *core.Report) {
 	checkEmptyNode(p, r, tm, eng)
 	// Update and NewTree
 	checkTreeTop(p, r, tm, eng)
+	checkTreeShiftWidths(p, r, tm)
 	r.Floor("tree functions", 8)
 }
 
